@@ -277,6 +277,8 @@ def gen_competition(rng, athlib, nath=None, nheights=None, jo_heights=3, att_cho
         h += rng.choice(steps)
         if do(('bar', h)) != 'ok': break
         seen_heights.append(h)
+        if peek and rng.random() < 0.4:
+            apply_op(athlib, c, ('peek',)); ops.append(('peek',))          # the table read just after the bar has moved
         plan = {}
         for b in range(1, nath + 1):
             plan[b] = att_choice(rng) if att_choice else rng.choices(ATT_ALL, ATT_W_ALL)[0]
@@ -302,6 +304,8 @@ def gen_competition(rng, athlib, nath=None, nheights=None, jo_heights=3, att_cho
         h = h2
         do(('bar', h))
         seen_heights.append(h)
+        if peek and rng.random() < 0.5:
+            apply_op(athlib, c, ('peek',)); ops.append(('peek',))          # ... also inside a jump-off
         parts = [b for b in r.bibs if b in (r.P or ())]
         rng.shuffle(parts)
         for b in parts:
